@@ -62,7 +62,8 @@ fam({'C17': ('main', 'all')},
 F['C17'] = dict(F['C17'], l2gate=dict(driver='worker', tv='WorkerL2TV', n=(100, 1500)),
                 # real contention: thousands of back-to-back Do / done pairs per execution (free-running only)
                 legs=[dict(driver='worker', profile='stress', prop='all', tv='WorkerTV', n=(0, 100, 0, 800), mc_quick=[], mc_thorough=[])])
-F['C14'] = dict(F['C14'], l2gate=dict(driver='workers', tv='WorkersL2TV', n=(60, 1000)))
+F['C14'] = dict(F['C14'], l2gate=dict(driver='workers', tv='WorkersL2TV', n=(60, 1000)),
+                legs=[dict(driver='workers', profile='stress', prop='all', tv='WorkersTV', n=(0, 30, 0, 300), mc_quick=[], mc_thorough=[])])
 fam({'C09': ('keys', 'all'), 'C10': ('main', 'all')},
     driver='exclusive', tv='ExclusiveTV',
     mc_quick=[('ExclusiveL2', 'ExclusiveL2'), ('ExclusiveL2', 'ExclusiveL2_neg'), ('ExclusiveL2', 'ExclusiveL2_witness')],
